@@ -4,6 +4,7 @@ import (
 	"bytes"
 	"encoding/json"
 	"fmt"
+	"strings"
 	"testing"
 	"unicode/utf8"
 
@@ -354,13 +355,83 @@ func init() {
 }
 
 func checkC20E2E(c *E2ECase) error {
-	st, _, _, err := runE2E(c)
+	st, exp, _, err := runE2E(c)
 	if err != nil {
 		return err
 	}
 	for k, tx := range st.got {
 		if err := checkTxJSON(tx); err != nil {
 			return fmt.Errorf("delivered transaction %d: %v", k, err)
+		}
+		if k < len(exp) {
+			if err := checkTxJSONModel(tx, &exp[k]); err != nil {
+				return fmt.Errorf("delivered transaction %d: %v", k, err)
+			}
+		}
+	}
+	return nil
+}
+
+// checkTxJSONModel compares the document of an end-to-end transaction with what the master logged, for
+// the one thing the document must keep apart whatever happened in between: SQL NULL is null, every other
+// value (the empty string included) is a string holding the value's text.  It only judges documents whose
+// shape matches the model (a different shape is C01's subject).
+func checkTxJSONModel(tx *gobinlog.Transaction, e *hist.ExpTx) error {
+	var out []byte
+	if err := guard(func() (er error) { out, er = json.Marshal(tx); return }); err != nil {
+		return nil // already judged by checkTxJSON
+	}
+	var top struct {
+		Events []struct {
+			RowValues, RowIdentifies []struct {
+				Columns []struct {
+					IsEmpty bool
+					Data    *string
+				}
+			}
+		}
+	}
+	if err := json.Unmarshal(out, &top); err != nil || len(top.Events) != len(e.Events) {
+		return nil
+	}
+	for i := range e.Events {
+		ev := &e.Events[i]
+		for img, pair := range []struct {
+			exp [][]hist.ExpCol
+			got []struct {
+				Columns []struct {
+					IsEmpty bool
+					Data    *string
+				}
+			}
+		}{{ev.Identifies, top.Events[i].RowIdentifies}, {ev.Values, top.Events[i].RowValues}} {
+			if len(pair.exp) != len(pair.got) {
+				continue
+			}
+			for r := range pair.exp {
+				if len(pair.exp[r]) != len(pair.got[r].Columns) {
+					continue
+				}
+				for ci, ec := range pair.exp[r] {
+					gc := pair.got[r].Columns[ci]
+					w := fmt.Sprintf("event %d image %d row %d col %d (%s)", i, img, r, ci, ec.Name)
+					if ec.Absent {
+						continue
+					}
+					if ec.Null {
+						if gc.Data != nil {
+							return fmt.Errorf("%s: the master logged NULL, the document has %q", w, clipB([]byte(*gc.Data)))
+						}
+						continue
+					}
+					if gc.Data == nil {
+						return fmt.Errorf("%s: the master logged a non-NULL value, the document has null", w)
+					}
+					if err := ec.Exp.Check([]byte(*gc.Data)); err != nil && !strings.Contains(*gc.Data, "\ufffd") {
+						return fmt.Errorf("%s: %v", w, err)
+					}
+				}
+			}
 		}
 	}
 	return nil
@@ -472,7 +543,7 @@ func TestC20(t *testing.T) {
 					}
 				}
 			}
-			st, _, _, err := runE2E(c)
+			st, exp, _, err := runE2E(c)
 			if err != nil {
 				rt.Skip(err.Error())
 			}
@@ -482,7 +553,11 @@ func TestC20(t *testing.T) {
 			}
 			for k, tx := range st.got {
 				rec.Class("e2e-transactions")
-				if err := checkTxJSON(tx); err != nil {
+				err := checkTxJSON(tx)
+				if err == nil && k < len(exp) {
+					err = checkTxJSONModel(tx, &exp[k])
+				}
+				if err != nil {
 					err = fmt.Errorf("delivered transaction %d: %v", k, err)
 					rec.Violation("c20e2e", c, "", err)
 					rt.Fatalf("C20 violation: %v", err)
